@@ -97,6 +97,7 @@ var plans = map[string]Plan{
 		Runs: []Run{
 			{Test: "^TestProps$/^agents$", Checks: checks(600, 25000), Shards: shards(4, 12)},
 			{Test: "^TestProps$/^agents_deep$", Checks: checks(300, 12000), Shards: shards(2, 8)},
+			{Test: "^TestProps$/^so_wiring$", Checks: checks(150, 2000), Shards: shards(2, 4)},
 			{Test: "^TestExhaustive$", NoRapid: true, Shards: shards(1, 1), Timeout: tmo(10*time.Minute, 60*time.Minute)},
 		},
 		Assumptions: []string{
